@@ -17,6 +17,7 @@ package main
 //   F:<gen>:<conn>:<off>:e:<code>              error answer
 //   F:<gen>:<conn>:<off>:t                     connection closed without a complete response header
 //   O:<gen>:<conn>:<first>:<last> | O:<gen>:<conn>:-    the ListOffsets pair after an OffsetOutOfRange answer
+//   N:<gen>:<conn>:<off>                       the fetch of the current generation still pending when the scenario ends
 // Within one quiescence phase the D/E tokens come first, then the asynchronous I/X/O tokens
 // (the causal order inside the Reader: it enqueues every message of a response before it does
 // anything else on the wire).
@@ -69,6 +70,8 @@ type e2e struct {
 	hang     bool
 	emptyAns int
 	cutAll   []byte // the message set of the response being cut
+	cutFirst int    // end of the first record (of the first compressed batch) of that message set
+	aux      map[int]bool // connections that are not the fetcher's (Reader.SetOffsetAt dials its own)
 }
 
 func e2eH(v int64) string { return kvfmt.I(v) }
@@ -125,6 +128,9 @@ func (s *e2e) pump() {
 	evs := s.fake.EventsFrom(s.evIdx)
 	s.evIdx += len(evs)
 	for _, e := range evs {
+		if s.aux[e.Conn] && e.Kind != fetchfake.EvDialFail {
+			continue
+		}
 		c := s.cs[e.Conn]
 		switch e.Kind {
 		case fetchfake.EvDialFail:
@@ -241,6 +247,64 @@ func (s *e2e) setOffset(o int64) {
 	s.tok("S:%s:%s", e2eH(o), kvfmt.Bool(restarted))
 	s.pos()
 	s.feats["setoffset"] = true
+}
+
+// timeIndex / offsetAt: the timestamp index of the log, as the fake answers ListOffsets(timestamp).
+func (s *e2e) timeIndex() [][2]int64 {
+	var t [][2]int64
+	for _, r := range s.log {
+		t = append(t, [2]int64{r.Ts, r.Off})
+	}
+	return t
+}
+func (s *e2e) offsetAt(ts int64) int64 {
+	for _, to := range s.timeIndex() {
+		if to[0] >= ts {
+			return to[1]
+		}
+	}
+	return s.last
+}
+
+// setOffsetAt: Reader.SetOffsetAt(t): a connection of its own asks the offset of t, then SetOffset.
+func (s *e2e) setOffsetAt(ts int64) {
+	s.fake.SetTimes(s.timeIndex())
+	o := s.offsetAt(ts)
+	restarted := s.started && o != s.rd.Offset()
+	if restarted {
+		s.gen++
+		s.fake.SetGen(s.gen)
+	}
+	before := s.fake.NumConns()
+	ctx, cancel := context.WithTimeout(context.Background(), 5*time.Second)
+	err := s.rd.SetOffsetAt(ctx, time.UnixMilli(ts))
+	cancel()
+	if s.aux == nil {
+		s.aux = map[int]bool{}
+	}
+	for id := before + 1; id <= s.fake.NumConns(); id++ {
+		s.aux[id] = true
+	}
+	if err != nil {
+		fmt.Fprintln(os.Stderr, "c02 e2e: SetOffsetAt:", err)
+	}
+	s.tok("S:%s:%s", e2eH(o), kvfmt.Bool(restarted))
+	s.pos()
+	s.feats["setoffset"] = true
+	s.feats["setoffsetat"] = true
+}
+
+// appendLog: the partition grows by the given batches (the fake answers ListOffsets(-1) with the new end).
+func (s *e2e) appendLog(more fetchfake.Layout) {
+	s.layout = append(append(fetchfake.Layout{}, s.layout...), more...)
+	s.log = s.layout.Records()
+	end := s.log[len(s.log)-1].Off + 1
+	if e := s.layout[len(s.layout)-1].Last() + 1; e > end {
+		end = e
+	}
+	s.last = end
+	s.fake.SetLog(s.first, s.last)
+	s.feats["log-grows"] = true
 }
 
 func (s *e2e) fpre(pf *fetchfake.PendingFetch) string {
@@ -430,8 +494,10 @@ func (s *e2e) step() {
 		s.answerError(pf, 1)
 	case x < 85:
 		s.closeConn(pf)
-	case x < 97:
+	case x < 95:
 		s.setOffset(s.randomOffset())
+	case x < 97:
+		s.setOffsetAt(s.log[s.r.Intn(len(s.log))].Ts)
 	default:
 		s.fake.FailNextDials(1)
 		s.feats["dialfail"] = true
@@ -453,6 +519,12 @@ func (s *e2e) blobs() string {
 }
 
 func (s *e2e) finish(op string, extraFeats ...string) {
+	// the fetch the current generation is waiting on when the scenario ends (never answered)
+	if !s.hang && s.started {
+		if pf := s.fake.PendingGen(s.gen); pf != nil {
+			s.tok("N:%s:%s:%s", e2eH(int64(pf.Gen)), e2eH(int64(pf.ConnID)), e2eH(pf.Offset))
+		}
+	}
 	// stop everything: close all connections (so that no Reader goroutine stays blocked in a
 	// gated fetch) and close the Reader.
 	done := make(chan struct{})
@@ -760,6 +832,17 @@ func (s *e2e) cutChoices(pf *fetchfake.PendingFetch) map[string][]cutChoice {
 		}
 	}
 	n := len(all)
+	s.cutFirst = n
+	if len(spans) > 0 {
+		b := spans[0].b
+		s.cutFirst = spans[0].hi
+		if b.Codec == 0 && len(b.Recs) > 1 {
+			pb := b
+			pb.Recs = b.Recs[:1]
+			var sc fetchfake.Encoder
+			s.cutFirst = len(sc.Batch(pb))
+		}
+	}
 	out := map[string][]cutChoice{}
 	add := func(region string, declared, msgBytes int) {
 		out[region] = append(out[region], cutChoice{region, declared, 4 + hdr + msgBytes})
@@ -860,8 +943,13 @@ var readerCutRegions = []string{"in-size-prefix", "in-response-header", "in-part
 
 // runE2EReaderCut: a non-group Reader reads a whole log; 1..3 of the fetch responses are cut
 // (region chosen round-robin over the scenarios, position random inside it), everything else is
-// answered in full.  No other fault.
+// answered in full.  No other fault.  Start positions: the default (FirstOffset placeholder),
+// SetOffset(absolute), SetOffset(FirstOffset), SetOffset(LastOffset), SetOffsetAt(time); the
+// partition GROWS after the first connection resolved the placeholder (always for LastOffset:
+// the Reader waits at the end and the first response with the appended records is cut before
+// its first complete record; half of the other scenarios, at a random step).
 func runE2EReaderCut(r *rand.Rand, n int) {
+	startKinds := []string{"default", "absolute", "firstoffset", "lastoffset", "offsetat"}
 	for it := 0; it < n; it++ {
 		ver := []int{2, 5, 10}[r.Intn(3)]
 		opts := fetchfake.GenOpts{MaxBatch: 1 + r.Intn(4), BigValues: r.Intn(6) == 0}
@@ -878,7 +966,17 @@ func runE2EReaderCut(r *rand.Rand, n int) {
 		if r.Intn(2) == 0 {
 			opts.StartOff = int64(r.Intn(500))
 		}
-		layout := fetchfake.GenLayout(r, 10+r.Intn(21), opts)
+		full := fetchfake.GenLayout(r, 10+r.Intn(21), opts)
+		startKind := startKinds[(it/3)%len(startKinds)]
+		// the batches the partition holds at first; the others are appended later
+		nb0 := len(full)
+		grows := startKind == "lastoffset" || r.Intn(2) == 0
+		if grows && len(full) >= 2 {
+			nb0 = 1 + r.Intn(len(full)-1)
+		} else {
+			grows = false
+		}
+		layout := append(fetchfake.Layout{}, full[:nb0]...)
 		log := layout.Records()
 		first := log[0].Off
 		last := log[len(log)-1].Off + 1
@@ -889,24 +987,60 @@ func runE2EReaderCut(r *rand.Rand, n int) {
 		s := newE2E(r, ver, layout, opts, first, last, maxBytes, 1+r.Intn(8))
 		s.feats["reader-cut"] = true
 		s.feats[kind] = true
-		start := first
-		if r.Intn(3) == 0 {
+		s.feats["start="+startKind] = true
+		start := first // the offset the position is FIRST resolved to
+		switch startKind {
+		case "absolute":
 			start = log[r.Intn(len(log))].Off
 			s.setOffset(start)
+		case "firstoffset":
+			s.setOffset(kafka.FirstOffset)
+		case "lastoffset":
+			start = last
+			s.setOffset(kafka.LastOffset)
+		case "offsetat":
+			ts := log[r.Intn(len(log))].Ts
+			start = s.offsetAt(ts)
+			s.setOffsetAt(ts)
+		}
+		growAt := 0
+		if grows && startKind != "lastoffset" {
+			growAt = r.Intn(4)
 		}
 		cutsLeft := 1 + r.Intn(3)
-		want := readerCutRegions[(it/3)%len(readerCutRegions)]
+		want := readerCutRegions[(it/15)%len(readerCutRegions)]
 		ncuts := 0
 		for step := 0; step < 80 && !s.hang; step++ {
 			if !s.quiesce() {
 				break
 			}
 			pf := s.fake.PendingGen(s.gen)
-			if pf == nil || len(s.layout.FromOffset(pf.Offset)) == 0 {
+			if pf == nil {
+				break
+			}
+			if grows && step >= growAt {
+				// the connection is initialised (its fetch is pending): the placeholder is resolved; now the partition grows
+				s.appendLog(full[nb0:])
+				grows = false
+			}
+			if len(s.layout.FromOffset(pf.Offset)) == 0 {
 				break
 			}
 			if cutsLeft > 0 && (ncuts == 0 || r.Intn(2) == 0) {
 				ch := s.cutChoices(pf)
+				if startKind == "lastoffset" && ncuts == 0 {
+					// before the first complete record of the first response
+					hdr := s.fake.DataHeaderLen(pf.Version)
+					for rg, cs := range ch {
+						var keep []cutChoice
+						for _, c := range cs {
+							if c.pc < 4+hdr+s.cutFirst && c.declared == len(s.cutAll) {
+								keep = append(keep, c)
+							}
+						}
+						ch[rg] = keep
+					}
+				}
 				region := want
 				if len(ch[region]) == 0 || ncuts > 0 {
 					var have []string
@@ -919,6 +1053,9 @@ func runE2EReaderCut(r *rand.Rand, n int) {
 						region = have[r.Intn(len(have))]
 					}
 				}
+				if ncuts == 0 && len(s.deliv) == 0 {
+					s.feats["cut-before-first-delivery"] = true
+				}
 				s.answerCut(pf, region, ch[region])
 				cutsLeft--
 				ncuts++
@@ -930,9 +1067,17 @@ func runE2EReaderCut(r *rand.Rand, n int) {
 			s.quiesce()
 		}
 		expect := 0
-		for _, rec := range log {
+		for _, rec := range full.Records() {
 			if rec.Off >= start {
 				expect++
+			}
+		}
+		if grows { // the partition never grew (the scenario ended first)
+			expect = 0
+			for _, rec := range s.log {
+				if rec.Off >= start {
+					expect++
+				}
 			}
 		}
 		if len(s.deliv) != expect {
@@ -1024,6 +1169,13 @@ func runE2EScenario(r *rand.Rand) {
 		opts.StartOff = int64(r.Intn(1000))
 	}
 	layout := fetchfake.GenLayout(r, 20+r.Intn(41), opts)
+	// a quarter of the scenarios: the partition holds only the first batches at first and grows later
+	var tail fetchfake.Layout
+	if r.Intn(4) == 0 && len(layout) >= 2 {
+		nb0 := 1 + r.Intn(len(layout)-1)
+		tail = append(tail, layout[nb0:]...)
+		layout = append(fetchfake.Layout{}, layout[:nb0]...)
+	}
 	log := layout.Records()
 	first := int64(0)
 	if r.Intn(2) == 0 {
@@ -1040,17 +1192,35 @@ func runE2EScenario(r *rand.Rand) {
 	queue := 1 + r.Intn(8)
 	s := newE2E(r, ver, layout, opts, first, last, maxBytes, queue)
 
-	if r.Intn(4) == 0 { // position the Reader before it is started
+	if tail != nil {
+		last = log[len(log)-1].Off + 1 // no compacted tail in front of the batches appended later
+		if e := layout[len(layout)-1].Last() + 1; e > last {
+			last = e
+		}
+		s.last = last
+		s.fake.SetLog(first, last)
+	}
+	switch r.Intn(8) { // position the Reader before it is started
+	case 0, 1:
 		s.setOffset(s.randomOffset())
+	case 2:
+		s.setOffset(kafka.LastOffset)
+	case 3:
+		s.setOffsetAt(s.log[r.Intn(len(s.log))].Ts)
 	}
 	if r.Intn(3) == 0 { // an open transaction: last stable offset (at a batch base) below the high watermark
 		s.fake.SetLSO(layout[r.Intn(len(layout))].Base)
 		s.feats["lso<hwm"] = true
 	}
 	steps := 15 + r.Intn(26)
+	growAt := r.Intn(8)
 	for i := 0; i < steps && !s.hang; i++ {
 		if !s.quiesce() {
 			break
+		}
+		if tail != nil && i >= growAt {
+			s.appendLog(tail)
+			tail = nil
 		}
 		s.step()
 	}
